@@ -528,6 +528,8 @@ def parseKind : String → Option (Kind × Bool)     -- Bool: hostname must be "
   | "pipe" => some (.startTls, false)
   | "tcp" => some (.startTls, false)
   | "udp" => some (.startTls, false)
+  | "ws" => some (.startTls, false)
+  | "wss" => some (.httpTls, false)
   | "tcp+tls" => some (.socketTls, false)
   | "stdin+tls" => some (.stdioTls, true)
   | _ => none
@@ -546,7 +548,7 @@ def handleAuthmatrix (toks : List String) : String :=
       if !(["none", "good", "foreign"].contains ccert) then none
       if !(["A", "-"].contains cca) || !(["A", "-"].contains sca) then none
       if noHost != (hostname == "-") then none
-      if (carrier == "tcp" || carrier == "tcp+tls" || carrier == "udp") && !(hostname == "localhost" || hostname == "127.0.0.1") then none
+      if (carrier == "tcp" || carrier == "tcp+tls" || carrier == "udp" || carrier == "ws" || carrier == "wss") && !(hostname == "localhost" || hostname == "127.0.0.1") then none
       if carrier == "pipe" && hostname.toList.any (fun c => c == ':' || c == '/' || c == '[' || c == ']') then none
       let caSrc (t : String) : Src := if t = "A" then ⟨none, some (.cas ["A"])⟩ else {}
       let so : Opts := leafSrc scert { ca := caSrc sca, flag := sreq }
